@@ -123,6 +123,13 @@ def run(ctx):
                 err = abs(ov - 1.0)
             else:
                 err = float(np.abs(np.asarray(got).reshape(-1) - np.asarray(exp).reshape(-1)).max()) if np.asarray(got).size == np.asarray(exp).size else 9.9
+            if err > 1e-6 and m["kind"] == "state" and sorted(r.get("appear", [])) == list(range(r["n"])) and r["appear"] != list(range(r["n"])):
+                # the recorded finding: the vector is ordered by first appearance of the wires in the circuit, not by device order
+                perm = np.asarray(exp).reshape((2,) * r["n"]).transpose(r["appear"]).reshape(-1)
+                if abs(abs(np.vdot(perm, np.asarray(got))) - 1.0) < 1e-6:
+                    ctx.violation("finding:clifford_statevector_untouched_wires", {"ops": r["ops"], "wires": r["dev_wires"], "first_appearance": r["appear"], "device_result": res},
+                                  what="default.clifford(tableau=False) orders the state vector by first appearance of the wires (here through a state preparation on unordered wires)")
+                    continue
             if err > 1e-6:
                 ctx.violation("run:" + json.dumps([r["ops"], m])[:300], {"ops": r["ops"], "wires": r["dev_wires"], "measurement": m, "device_result": res,
                               "exact": np.asarray(exp).astype(complex).view(float).tolist() if np.iscomplexobj(exp) else np.asarray(exp).tolist(), "err": err},
